@@ -1735,7 +1735,9 @@ class TrajectoryStore:
                 elif data is not None:
                     val = getattr(data, name)
 
-                self._write_to_nc_var(var, index, name, field, val)
+                self._write_to_nc_var(
+                    var, index, name, field, val, nc_file.species or []
+                )
                 nc_file.traj_var[0][index] = index
 
     def _write_to_nc_var(
@@ -1745,8 +1747,13 @@ class TrajectoryStore:
         name: str,
         field: FieldMetadata,
         val: Any,
+        species: list[Species],
     ) -> None:
-        """Write a value to a NetCDF variable at the given index."""
+        """Write a value to a NetCDF variable at the given index.
+
+        Species-indexed values are written to the slot given by the position
+        of the species in `species`, the species list of the NetCDF file's
+        species dimension (the same list used for reading)."""
 
         # Handle missing values.
         if val is None:
@@ -1760,6 +1767,13 @@ class TrajectoryStore:
         # variable length types of the appropriate base type.
         has_sp = Dimension.SPECIES in field.dimensions
         has_tm = Dimension.THRUST_MODE in field.dimensions
+        if has_sp:
+            missing = [sp.name for sp in val if sp not in species]
+            if missing:
+                raise ValueError(
+                    f'Data field "{name}" at index {index} has species {missing} '
+                    'that are not in the species dimension of the NetCDF file'
+                )
         match (has_sp, has_tm):
             case (False, False):
                 # float, np.ndarray
@@ -1770,12 +1784,12 @@ class TrajectoryStore:
                     var[index, ti] = val[tm]
             case (True, False):
                 # SpeciesValues[float], SpeciesValues[np.ndarray]
-                for si, sp in enumerate(Species):
+                for si, sp in enumerate(species):
                     if sp in val:
                         var[index, si] = val[sp]
             case (True, True):
                 # SpeciesValues[ThrustModeValues]
-                for si, sp in enumerate(Species):
+                for si, sp in enumerate(species):
                     for ti, tm in enumerate(ThrustMode):
                         if sp in val and tm in val[sp]:
                             var[index, si, ti] = val[sp][tm]
